@@ -280,6 +280,7 @@ class Analyzer:
         self.inlined_calls: List[Tuple[str, str, int]] = []
         self.spliced_at: Dict[int, FuncInfo] = {}  # id(call expression) -> helper spliced there
         self.partial_syn: Dict[tuple, ast.Call] = {}  # id(call of a partial object) -> the equivalent direct call F(frozen args + own args)
+        self.syn_by_call: Dict[int, List[ast.Call]] = {}  # call made through a callable value -> the stand-in calls that spell it out
         self.syn_arg_frame: Dict[int, tuple] = {}  # argument of a stand-in call written in another frame -> (function, env) of that frame
         self.partial_frame: Dict[tuple, tuple] = {}  # ... and the frame (function, env) in which the partial was built
         self.await_syn: Dict[int, ast.Await] = {}
@@ -537,7 +538,7 @@ class Builder:
         inner = self._awaited_expr(aw)
         n.suspends = True
         if isinstance(inner, ast.Call):
-            cal = self._assumed_callee(inner) or self.sc.callee(inner)
+            cal = self._assumed_callee(inner) or self._partial_callee(inner) or self.sc.callee(inner)
             n.awaited = cal
             if cal.kind == "pkg":
                 s = self.an.callee_summary(cal)
@@ -928,7 +929,47 @@ class Builder:
                 return neg, aw, inner, t
         return None
 
-    def _inline_threaded(self, aw: Optional[ast.Await], call: ast.Call, t: FuncInfo, k_true: Node, k_false: Node, ctx: Ctx, stmt: ast.AST) -> Node:
+    def _flag_cmp_call(self, e: Optional[ast.AST]):
+        """e is `[not] ([await] helper(...)) is [not] <None | marker object>` with a helper that is spliced in
+        -> (negated, await node or None, call, helper, decide) where decide(return value) says whether the comparison holds"""
+        if e is None:
+            return None
+        neg = False
+        e = strip_cast(e)
+        while isinstance(e, ast.UnaryOp) and isinstance(e.op, ast.Not):
+            neg = not neg
+            e = strip_cast(e.operand)
+        if not (isinstance(e, ast.Compare) and len(e.ops) == 1 and isinstance(e.ops[0], (ast.Is, ast.IsNot))):
+            return None
+        if isinstance(e.ops[0], ast.IsNot):
+            neg = not neg
+        rhs = e.comparators[0]
+        is_none = isinstance(rhs, ast.Constant) and rhs.value is None
+        if not is_none and not (isinstance(rhs, ast.Name) and self._is_marker(self.f, rhs.id)):
+            return None
+        fc = self._flag_call(e.left)
+        if fc is None or fc[0]:
+            return None
+        _n, aw, call, t = fc
+        op_is = ast.Is()
+
+        def decide(v: Optional[ast.AST]):
+            """True / False when the helper's return value settles `value is <rhs>`, else the comparison to test"""
+            if v is None or (isinstance(v, ast.Constant) and v.value is None):
+                return is_none
+            if isinstance(v, ast.Constant):
+                return False
+            if isinstance(v, ast.Name) and self._is_marker(t, v.id):
+                return (not is_none) and v.id == rhs.id
+            if not is_none and not (isinstance(v, ast.Name) and v.id not in self.an.scope(t).params and not self.an.scope(t).defs.get(v.id)):
+                # a computed value / a local of the helper: never the module's private marker object (only `return MARKER` yields it)
+                if not isinstance(v, ast.Name) or all(h[0] in ("assign", "ann") and not (isinstance(h[1 if h[0] == "assign" else 2], ast.Name)) for h in self.an.scope(t).defs.get(v.id, [("x",)])):
+                    return False
+            return ast.copy_location(ast.Compare(left=v, ops=[op_is], comparators=[rhs]), v)
+
+        return neg, aw, call, t, decide
+
+    def _inline_threaded(self, aw: Optional[ast.Await], call: ast.Call, t: FuncInfo, k_true: Node, k_false: Node, ctx: Ctx, stmt: ast.AST, decide=None) -> Node:
         """Splice helper t where only the truth of its result matters: every `return v` of the helper continues at k_true /
         k_false according to v (a test step on v unless v is a constant), so the branch taken stays tied to the path through
         the helper.  Falling off the end returns None (false)."""
@@ -939,6 +980,16 @@ class Builder:
         self.edge(r_false, k_false)
 
         def route(rst: Optional[ast.Return]) -> Node:
+            if decide is not None:
+                d = decide(strip_cast(rst.value) if rst is not None and rst.value is not None else None)
+                if d is True:
+                    return r_true
+                if d is False:
+                    return r_false
+                tn = self.mk("test", d, rst)
+                self.edge(tn, r_true, T)
+                self.edge(tn, r_false, F)
+                return tn
             if rst is None or rst.value is None:
                 return r_false
             v = strip_cast(rst.value)
@@ -1137,6 +1188,7 @@ class Builder:
                     syn = ast.copy_location(ast.Call(func=e, args=args2, keywords=kws2), call)
                     self.an.partial_syn[key] = syn
                     self.an.partial_frame[key] = (f, env)
+                    self.an.syn_by_call.setdefault(id(call), []).append(syn)
                 return sc.callee(syn)
             first = False
             if isinstance(e, ast.Call) and sc.callee(e).name.rpartition(".")[2] == "partial" and e.args:
@@ -1146,6 +1198,10 @@ class Builder:
                     syn = ast.copy_location(ast.Call(func=e.args[0], args=list(e.args[1:]) + list(call.args), keywords=list(e.keywords) + list(call.keywords)), call)
                     self.an.partial_syn[key] = syn
                     self.an.partial_frame[key] = (f, env)
+                    self.an.syn_by_call.setdefault(id(call), []).append(syn)
+                    if f is not self.f or env is not self.env:
+                        for x_ in list(e.args[1:]) + [k_.value for k_ in e.keywords]:
+                            self.an.syn_arg_frame[id(x_)] = (f, env)  # the frozen arguments were written where the partial was built
                 return sc.callee(syn)
             if not isinstance(e, ast.Name):
                 return None
@@ -1247,7 +1303,7 @@ class Builder:
                     e = self.an.await_syn.setdefault(id(e), ast.copy_location(ast.Await(value=inner), e))
                     self.an.awaited_via[id(e)] = inner
                 n = self.mk("await", e, stmt)
-                acal = (self._assumed_callee(inner) or self.sc.callee(inner)) if isinstance(inner, ast.Call) else None
+                acal = (self._assumed_callee(inner) or self._partial_callee(inner) or self.sc.callee(inner)) if isinstance(inner, ast.Call) else None
                 t = self._inline_target(acal, True) if acal is not None else None
                 if t is not None:
                     n.awaited = acal
@@ -1542,6 +1598,12 @@ class Builder:
                 neg, aw, call, t = fc
                 b_then, b_else = self.stmts(st.body, k, ctx), self.stmts(st.orelse, k, ctx)
                 return self._inline_threaded(aw, call, t, b_else if neg else b_then, b_then if neg else b_else, ctx, st)
+            fcc = self._flag_cmp_call(st.test)
+            if fcc is not None:
+                # `if helper() is None:` / `if (await helper()) is MARKER:`: each return of the helper goes straight to its branch
+                neg, aw, call, t, decide = fcc
+                b_then, b_else = self.stmts(st.body, k, ctx), self.stmts(st.orelse, k, ctx)
+                return self._inline_threaded(aw, call, t, b_else if neg else b_then, b_then if neg else b_else, ctx, st, decide)
             # `_c = <condition>` right before `if _c:`: the test step reads the condition itself
             test = self._spec_test(st.test) if self.env else st.test
             br = self.mk("test", self.test_subst.get(id(st), test), st)
